@@ -1,2 +1,110 @@
-(* placeholder *)
-From GT Require Import Base.Prelude Model.PDA Model.PDAConv.
+(* C10 — PDA normal forms and the conversion PDA -> CFG (gambatools.pda_algorithms:
+   pda_to_one_accepting_state_in_place, pda_to_accept_on_empty_stack_in_place (as repaired by fix F10),
+   pda_to_push_pop_in_place, pda_to_cfg).
+   "Each normal-form routine yields a valid PDA with the same language and the announced shape (one accepting
+   state / accepting only with an empty stack / every transition either pushes or pops exactly one symbol); the
+   grammar produced by pda_to_cfg is valid, has the input alphabet of the PDA as terminals and generates exactly
+   the language of the PDA."
+   Model: Model/PDA.v (automaton, `moves`, `pda_reach`, `pda_lang` = acceptance by final state from the empty
+   stack, `pda_wf` = PDA._check_validity) and Model/PDAConv.v (the routines).  Conventions:
+   * a configuration is (state, stack) and the TOP OF THE STACK IS THE HEAD OF THE LIST (the Python keeps the top
+     at the end of its list; the harness reverses stacks);
+   * `peps P` is the epsilon symbol, used both for "reads no input" and for "no stack symbol";
+   * the fresh names chosen by the implementation are replayed through the arguments: `states` is the stream of
+     the fresh state names (fresh_state) in the order in which the implementation drew them, `bottom` is the
+     fresh bottom-of-stack marker and `dummy` the fresh stack symbol of the push/pop format (fresh_symbol).
+     A routine of the model fails (None) when a replayed name is not fresh; every statement below holds for
+     whatever names are supplied, provided the routine succeeds;
+   * the grammar variable A_pq of Sipser's construction is encoded by `pairv p q = p * 40 + q`, which is
+     injective for state codes < 40: hence the hypotheses `q < 40` on the states of the automaton and on the
+     names of the stream (the harness codes states below 40).  They are needed: C10_small_states_needed shows a
+     valid push/pop automaton with a state 40 whose grammar generates a word that the automaton rejects;
+   * pda_to_push_pop needs `dummy <> peps P` (the Python only asserts `dummy not in Gamma`):
+     C10_push_pop_dummy_must_differ_from_epsilon shows that with dummy = epsilon the result is neither valid nor
+     in push/pop format.
+   Proofs: Proofs/PDAConvProofs.v, Proofs/PDA2CFGProofs.v, Proofs/PDA2CFGFinal.v. *)
+From GT Require Import Base.Prelude Model.NFA Model.PDA Model.CFG Model.PDAConv
+  Proofs.PDAConvProofs Proofs.PDA2CFGProofs Proofs.PDA2CFGFinal.
+
+(* one accepting state *)
+Theorem C10_one_accepting_state : forall (states : list nat) (P P' : pda) (rest : list nat),
+  pda_wf P -> to_one_accept states P = Some (P', rest) ->
+  pda_wf P' /\ length (dedup (pF P')) = 1 /\ pSg P' = pSg P /\ pGm P' = pGm P /\ peps P' = peps P /\ pq0 P' = pq0 P /\
+  (forall w, pda_lang P' w <-> pda_lang P w).
+Proof. exact to_one_accept_correct. Qed.
+Print Assumptions C10_one_accepting_state.
+
+(* accept on empty stack: same language, a single accepting state, and that state is only ever reached with an
+   empty stack; the push/pop format is preserved *)
+Theorem C10_accept_on_empty_stack : forall (bottom : nat) (states : list nat) (P P' : pda) (rest : list nat),
+  pda_wf P -> to_empty_stack bottom states P = Some (P', rest) ->
+  pda_wf P' /\ pSg P' = pSg P /\ peps P' = peps P /\ (exists qa, pF P' = [qa]) /\
+  (forall w, pda_lang P' w <-> pda_lang P w) /\
+  (forall w q st, In q (pF P') -> pda_reach P' (pq0 P', []) w (q, st) -> st = []) /\
+  (pda_is_push_pop P = true -> pda_is_push_pop P' = true).
+Proof. exact to_empty_stack_correct. Qed.
+Print Assumptions C10_accept_on_empty_stack.
+
+(* the routine fails exactly when the marker is not fresh (or is epsilon) or one of the three state names is
+   missing / not fresh *)
+Theorem C10_empty_stack_failure : forall (bottom : nat) (states : list nat) (P : pda),
+  to_empty_stack bottom states P = None <->
+  (In bottom (pGm P) \/ bottom = peps P \/
+   match states with
+   | qi :: qd :: qa :: _ => In qi (pQ P) \/ In qd (pQ P ++ [qi]) \/ In qa (pQ P ++ [qi; qd])
+   | _ => True
+   end).
+Proof. exact to_empty_stack_none. Qed.
+Print Assumptions C10_empty_stack_failure.
+
+(* push/pop format *)
+Theorem C10_push_pop : forall (dummy : nat) (states : list nat) (P P' : pda) (rest : list nat),
+  pda_wf P -> dummy <> peps P -> to_push_pop dummy states P = Some (P', rest) ->
+  pda_wf P' /\ pda_is_push_pop P' = true /\ length (dedup (pF P')) = 1 /\ pSg P' = pSg P /\ peps P' = peps P /\
+  (forall w, pda_lang P' w <-> pda_lang P w).
+Proof. exact to_push_pop_correct. Qed.
+Print Assumptions C10_push_pop.
+
+(* Sipser, Lemma 2.27: the variable A_pq generates exactly the words that take the automaton from p with an empty
+   stack to q with an empty stack *)
+Theorem C10_sipser_lemma : forall (P : pda) (p q : nat) (x : word),
+  pda_wf P -> pda_is_push_pop P = true -> (forall s, In s (pQ P) -> s < 40) -> In p (pQ P) -> In q (pQ P) ->
+  Forall (fun a => a <> peps P) x ->
+  (yields (pda_to_cfg_core P) (Var (pairv p q)) x <-> pda_reach P (p, []) x (q, [])).
+Proof. exact sipser_2_27. Qed.
+Print Assumptions C10_sipser_lemma.
+
+(* the grammar of a normalised automaton *)
+Theorem C10_pda_to_cfg_core : forall (P : pda) (qa : nat),
+  pda_wf P -> pda_is_push_pop P = true -> (forall s, In s (pQ P) -> s < 40) -> pF P = [qa] ->
+  (forall w st, pda_reach P (pq0 P, []) w (qa, st) -> st = []) ->
+  forall w, Forall (fun a => a <> peps P) w -> (cfg_lang (pda_to_cfg_core P) w <-> pda_lang P w).
+Proof. exact pda_to_cfg_core_correct. Qed.
+Print Assumptions C10_pda_to_cfg_core.
+
+(* the whole conversion *)
+Theorem C10_pda_to_cfg : forall (bottom dummy : nat) (states : list nat) (P : pda) (G : cfg),
+  pda_wf P -> dummy <> peps P ->
+  (forall q, In q (pQ P) -> q < 40) -> (forall q, In q states -> q < 40) ->
+  pda_to_cfg bottom dummy states P = Some G ->
+  cfg_wf G /\ gSg G = pSg P /\ forall w, cfg_lang G w <-> pda_lang P w.
+Proof. exact pda_to_cfg_correct. Qed.
+Print Assumptions C10_pda_to_cfg.
+
+(* the bound on the state codes cannot be dropped: pairv 0 40 = pairv 1 0.  Nothing can be done from the initial
+   state 0 (the language is empty), but the start variable A_{0,40} has the code of A_{1,0}, which derives 5 6 *)
+Theorem C10_small_states_needed :
+  let P := mkPDA [0; 1; 40] [5; 6] [7] [((1, 5, 9), [(1, 7)]); ((1, 6, 7), [(0, 9)])] 0 [40] 9 in
+  pda_wf P /\ pda_is_push_pop P = true /\ pF P = [40] /\
+  (forall w st, pda_reach P (pq0 P, []) w (40, st) -> st = []) /\
+  cfg_lang (pda_to_cfg_core P) [5; 6] /\ ~ pda_lang P [5; 6].
+Proof. exact small_states_needed. Qed.
+Print Assumptions C10_small_states_needed.
+
+(* dummy = epsilon (= 9) is accepted by the routine, and the result is neither valid nor in push/pop format *)
+Theorem C10_push_pop_dummy_must_differ_from_epsilon :
+  let P := mkPDA [0; 1] [5] [7] [((0, 5, 9), [(1, 9)])] 0 [1] 9 in
+  pda_wf P /\
+  exists P' rest, to_push_pop 9 [2; 3] P = Some (P', rest) /\ pda_wf_b P' = false /\ pda_is_push_pop P' = false.
+Proof. exact to_push_pop_dummy_eps_cex. Qed.
+Print Assumptions C10_push_pop_dummy_must_differ_from_epsilon.
